@@ -34,7 +34,8 @@ class _D(Domain):
     loop_bound = 2
 
     def resolve_call(self, st, call, walker):
-        return None
+        # private helpers extracted from the analysed code are followed
+        return walker.resolve_helper(st, call)
 
     counts = [0, 1, 2]
 
@@ -227,88 +228,121 @@ def check_chainmap(program, rep):
         rep.error('C11.chainmap: matcher self-test failed')
 
 
+class _C(_D):
+    def for_counts(self, st, node, itersym):
+        return [1]
+
+
 def check_clear(program, rep):
+    """Path based: every child in every handle layer and every sub-map gets
+    its back-links reset before the containers are dropped; everything is
+    dropped."""
+    rm = program.cls('ResourceMap')
     f = program.method('ResourceMap', 'clear', inherited=False)
     site = f.where
-    body = f.node
-    first_drop = None
-    for x in ast.walk(body):
-        if isinstance(x, ast.Call) and isinstance(x.func, ast.Attribute) \
-                and x.func.attr == 'clear':
-            ln = x.lineno
-            first_drop = ln if first_drop is None else min(first_drop, ln)
-        if isinstance(x, ast.Assign) and any(norm(t) in (
-                'self.maps', 'self.handles') for t in x.targets):
-            first_drop = x.lineno if first_drop is None else min(first_drop,
-                                                                 x.lineno)
-    # (a) handles of every layer
-    ok_a = False
-    for lp in ast.walk(body):
-        if isinstance(lp, ast.For) and norm(lp.iter) == 'self.handles.maps':
-            L = norm(lp.target)
-            for inner in ast.walk(lp):
-                if isinstance(inner, ast.For) and norm(inner.iter) in (
-                        f'{L}.values()', f'tuple({L}.values())',
-                        f'list({L}.values())'):
-                    H = norm(inner.target)
-                    sets = {norm(t) for a in ast.walk(inner) if isinstance(
-                        a, ast.Assign) and isinstance(a.value, ast.Constant)
-                        and a.value.value is None for t in a.targets}
-                    if {f'{H}.parent', f'{H}.key'} <= sets and (
-                            first_drop is None or inner.lineno < first_drop):
-                        ok_a = True
-    rep.check(ok_a, 'C11.clear', site, 'for layer in self.handles.maps: ...',
-              'the back-links of the handles of every layer are reset before '
-              'the containers are dropped',
-              'clear() does not reset parent/key of the handles in every '
-              'layer of the ChainMap (only the visible ones, or none): former '
-              'children still point to the cleared map', line=f.node.lineno)
-    # (b) sub-maps
-    ok_b = False
-    for lp in ast.walk(body):
-        if isinstance(lp, ast.For) and norm(lp.iter) in (
-                'self.maps.values()', 'tuple(self.maps.values())',
-                'list(self.maps.values())'):
-            M = norm(lp.target)
-            sets = {norm(t) for a in ast.walk(lp) if isinstance(a, ast.Assign)
-                    and isinstance(a.value, ast.Constant)
-                    and a.value.value is None for t in a.targets}
-            if {f'{M}.parent', f'{M}.key'} <= sets and (
-                    first_drop is None or lp.lineno < first_drop):
-                ok_b = True
-    rep.check(ok_b, 'C11.clear', site, 'for map_ in self.maps.values(): ...',
-              'the back-links of the sub-maps are reset before they are '
-              'dropped', 'clear() does not reset parent/key of its sub-maps',
-              line=f.node.lineno)
-    # (c) everything dropped
-    maps_drop = any(isinstance(x, ast.Call) and norm(x.func)
-                    == 'self.maps.clear' for x in ast.walk(body)) or any(
-        isinstance(x, ast.Assign) and any(norm(t) == 'self.maps'
-                                          for t in x.targets)
-        for x in ast.walk(body))
-    layers_loop = any(
-        isinstance(lp, ast.For) and norm(lp.iter) == 'self.handles.maps'
-        and any(isinstance(c, ast.Call) and norm(c.func)
-                == f'{norm(lp.target)}.clear' for c in ast.walk(lp))
-        for lp in ast.walk(body))
-    rebind = any(isinstance(x, ast.Assign) and any(
-        norm(t) == 'self.handles' for t in x.targets) and isinstance(
-            x.value, ast.Call) and dotted(x.value.func) == 'ChainMap'
-        and not x.value.args for x in ast.walk(body))
-    first_only = any(isinstance(x, ast.Call) and norm(x.func)
-                     == 'self.handles.clear' for x in ast.walk(body))
-    drop_rest = any(isinstance(x, ast.Delete) and any(
-        norm(t) == 'self.handles.maps[1:]' for t in x.targets)
-        for x in ast.walk(body))
-    total = layers_loop or rebind or (first_only and drop_rest)
-    rep.check(maps_drop and total, 'C11.clear', site,
-              'self.maps.clear(); <all handle layers emptied>',
-              'clear() leaves nothing reachable: sub-maps dropped and every '
-              'layer of handles emptied',
-              'clear() does not empty every layer of `handles` (ChainMap.'
-              'clear only clears the first one) or keeps the sub-maps: '
-              'shadowed handles stay reachable after clear()',
-              line=f.node.lineno)
+    w = Walker(program, _C(program))
+    exits = [e for e in w.run(f, rm) if e.kind != 'raise']
+    rep.count('paths', len(exits))
+    bad = {}
+    n_paths = 0
+
+    def flag(k, why):
+        bad.setdefault(k, why)
+
+    for ex in exits:
+        tr = ex.state.trace
+        n_paths += 1
+        # children visited
+        layer_items = [e for e in tr if e.kind == 'for-item'
+                       and e.sym.text == 'self.handles.maps'
+                       and not (e.extra and isinstance(e.extra, dict))]
+        layers = {e.target.text for e in layer_items}
+        handle_items = []
+        map_items = []
+        for e in tr:
+            if e.kind != 'for-item' or (isinstance(e.extra, dict)
+                                        and e.extra.get('generator')):
+                continue
+            base = e.sym.node
+            from rules.lifecycle import unwrap_iter
+            b, view = unwrap_iter(base)
+            if view == 'values' and norm(b) in layers:
+                handle_items.append(e)
+            if view == 'values' and norm(b) == 'self.maps':
+                map_items.append(e)
+        first_drop = None
+        drops = {'maps': False, 'first_layer': False, 'rest': False,
+                 'layers': set(), 'rebind': False}
+        stores = {}
+        for i, e in enumerate(tr):
+            if e.kind == 'store' and e.target is not None:
+                tn = e.target.node
+                if isinstance(tn, ast.Attribute) and tn.attr in ('parent',
+                                                                 'key') \
+                        and isinstance(e.sym.node, ast.Constant) \
+                        and e.sym.node.value is None:
+                    stores.setdefault(norm(tn.value), {})[tn.attr] = i
+                if e.target.text == 'self.maps':
+                    drops['maps'] = True
+                    first_drop = first_drop if first_drop is not None else i
+                if e.target.text == 'self.handles':
+                    drops['rebind'] = True
+                    first_drop = first_drop if first_drop is not None else i
+            if e.kind == 'call' and isinstance(e.sym.node, ast.Call):
+                t = norm(e.sym.node.func)
+                if t == 'self.maps.clear':
+                    drops['maps'] = True
+                    first_drop = first_drop if first_drop is not None else i
+                elif t == 'self.handles.clear':
+                    drops['first_layer'] = True
+                    first_drop = first_drop if first_drop is not None else i
+                elif t.endswith('.clear') and t[:-6] in layers:
+                    drops['layers'].add(t[:-6])
+                    first_drop = first_drop if first_drop is not None else i
+            if e.kind == 'del' and e.target.text == 'self.handles.maps[1:]':
+                drops['rest'] = True
+        if not layer_items or not handle_items:
+            flag('handles', 'clear() does not visit the handles of every '
+                 'layer of the ChainMap (only the visible ones, or none): '
+                 'former children still point to the cleared map')
+        if not map_items:
+            flag('maps', 'clear() does not visit its sub-maps to reset their '
+                 'parent/key')
+        for kind, items in (('handles', handle_items), ('maps', map_items)):
+            for it in items:
+                x = it.target.text
+                conds = {e.sym.text: e.extra for e in tr if e.kind == 'cond'}
+                is_child = conds.get(f'{x}.parent == self')
+                if is_child is None:
+                    is_child = conds.get(f'{x}.parent is self')
+                st_ = stores.get(x, {})
+                if is_child is False:
+                    continue
+                if 'parent' not in st_ or 'key' not in st_:
+                    flag(kind, f'a child ({x}) of the cleared map keeps its '
+                         'parent / key')
+                elif first_drop is not None and max(st_.values()) > first_drop:
+                    flag(kind, 'the containers are dropped before the '
+                         'back-links of the children are reset')
+        all_layers = drops['rebind'] or (layers and layers
+                                         <= drops['layers']) or (
+            drops['first_layer'] and drops['rest'])
+        if not drops['maps'] or not all_layers:
+            flag('drop', 'clear() does not empty every layer of `handles` '
+                 '(ChainMap.clear only clears the first one) or keeps the '
+                 'sub-maps: shadowed handles stay reachable after clear()')
+    if n_paths == 0:
+        rep.inconclusive('C11.clear', site, 'clear', 'no path')
+        return
+    for k, okmsg in (('handles', 'the back-links of the handles of every '
+                                 'layer are reset before the containers are '
+                                 'dropped'),
+                     ('maps', 'the back-links of the sub-maps are reset '
+                              'before they are dropped'),
+                     ('drop', 'sub-maps dropped and every layer of handles '
+                              'emptied')):
+        rep.check(k not in bad, 'C11.clear', site, f'clear(): {k}', okmsg,
+                  bad.get(k, ''), line=f.node.lineno)
 
 
 def check_lookup(program, rep):
